@@ -90,7 +90,8 @@ class Report:
             out.append("JUSTIFIED %s %s: %s" % (j["rule"], j["instance"], j["reason"]))
         nviol = 0
         nknown = 0
-        rdir = os.path.join(P.VERIF, "evidence", "replay")
+        edir = os.environ.get("VERIF_EVIDENCE_DIR") or os.path.join(P.VERIF, "evidence")
+        rdir = os.path.join(edir, "replay")
         os.makedirs(rdir, exist_ok=True)
         # remove stale replay files of this property
         for f in os.listdir(rdir):
@@ -147,7 +148,6 @@ class Report:
               "coverage": cov, "assumptions": self.assumptions,
               "wall_s": round(time.time() - self.t0, 2), "violations": nviol,
               "analysis_broken": self.broken_msgs}
-        edir = os.path.join(P.VERIF, "evidence")
         os.makedirs(edir, exist_ok=True)
         with open(os.path.join(edir, self.prop + ".json"), "w") as f:
             json.dump(ev, f, indent=1, default=str)
